@@ -1449,14 +1449,16 @@ pub fn validate_plan(statement: &KmlStatement) -> Result<(), KipError> {
     // Every executable handle must be created by this plan or bound by that
     // clause's own WHERE. Parameters remain runtime bindings and are unaffected.
     for clause in &statement.clauses {
-        let mut allowed = plan_handles.clone();
+        // Per clause, and without copying the plan's handles: a plan of n
+        // creating clauses would otherwise cost n² to validate.
+        let mut bound_by_where = BTreeSet::new();
         if let Some(where_clauses) = clause_where(clause) {
-            collect_where_variables(where_clauses, &mut allowed);
+            collect_where_variables(where_clauses, &mut bound_by_where);
         }
         let mut referenced = BTreeSet::new();
         collect_clause_handles(clause, &mut referenced);
         for name in referenced {
-            if !allowed.contains(&name) {
+            if !plan_handles.contains(&name) && !bound_by_where.contains(&name) {
                 return Err(KipError::reference_error(format!(
                     "?{name} is not bound by this command's mutation outputs or WHERE clause"
                 )));
